@@ -93,7 +93,8 @@ CLAIMED = {
  "C12": dict(text="Theorems: for 0<k<N/2 the 2D injection array equals N^2/2 * (-k s gamma) at stored mode (0,k) and 0 elsewhere, the 3D one N^3/2 * (-/+ i gamma) at (0,+/-k,0) in channel 0 and 0 elsewhere "
                   "- the transforms of the documented -k(2pi/L)gamma cos and gamma sin (transform of a real harmonic proved from a primitive root); the 2D convection term vanishes identically on "
                   "the laminar subspace; on it every ETD tableau is u' = E u + h phi1 f and n steps from rest give f (E^n - 1)/lambda; ForcedStepper laws. Injection arrays compared element-wise "
-                  "(exact rationals) for all admissible modes, N parity, several L.",
+                  "(exact rationals) for all admissible modes, N parity, several L; the constructors of the two Kolmogorov nonlinear functions are executed symbolically on every run "
+                  "(harness/translate/spectral.py) and the resulting arrays proved equal to the injection model at every stored index.",
              note="The 3D laminar subspace is now proved as well (u x curl u = grad(u_0^2/2) on states (u_0(x_1),0,0), removed by the Leray projection, mean by antisymmetry); laminar solutions of both Kolmogorov steppers and the generic vorticity stepper are checked "
                   "against the closed form on the real code for orders 1-4, L != 2 pi, modes above the dealiasing cutoff.",
              technique="Rocq proof (case analysis on the masks, tableau algebra, induction on n) + exact correspondence of the injection arrays", design="§4 C12"),
@@ -167,7 +168,7 @@ CLAIMED = {
              technique="Rocq proof (field identities, stage-program equivalence) on an AST-translated model + exact correspondence", design="§4 C02"),
  "C14": dict(text="Theorems (unbounded in n, state type, stepper function, window length) about a hand-written Gallina model of rollout/repeat/stack_sub_trajectories/"
                   "RepeatedStepper; the model is tied to the code by exact correspondence (extracted model vs JAX on integer bookkeeping steppers) on every run, plus a naive-loop oracle on the real code; "
-                  "rollout, repeat (with / without aux, all flags) and RepeatedStepper / ForcedStepper are additionally re-translated from the source on every run (harness/translate/utilsfn.py, "
+                  "rollout, repeat (with / without aux, all flags), stack_sub_trajectories and RepeatedStepper / ForcedStepper are additionally re-translated from the source on every run (harness/translate/utilsfn.py, "
                   "fail-closed) and proved equal to the model for every state type, step function, n, flag and auxiliary argument.",
              note="Model of lax.scan/tree_map/dynamic_slice is a contract (fold/list cons/clamped slice); RepeatedStepper theorem assumes the rfftn.irfftn round trip on the reachable spectra (Nyquist-compatible states).",
              technique="Rocq proof (induction over n / lists; utilities regenerated from the source by an AST translator and proved equal to the model) + exact model-vs-code correspondence", design="§4 C14"),
